@@ -24,13 +24,29 @@ NO_ARG_TESTS = ["has_text", "has_number", "has_email", "has_date", "has_time", "
 PASS_THROUGH = ["send_email", "add_input_labels", "play_audio", "say_msg", "open_ticket", "start_session",
                 "send_broadcast", "call_classifier", "call_resthook"]
 TEMPLATE_UUID = "0f3a54c2-7b1d-4e58-9b52-aa10d4c7e001"   # kept fixed by renamings
+# texts whose mangled names agree on the first 15 characters ("this_is_a_long_", "Hello_world_he") or
+# entirely, so that several rows compete for one readable id and the `.counter` loop runs
+CLASH_WORDS = ["this is a long message", "this is a long story", "this is a long.message", "this is a long",
+               "this is a long message text over fifteen", "Hello world here", "Hello world hereafter",
+               "Hello.world here!", "hello", "hello", "hello.1", "hello.2", "hello 1", "x", "x.1",
+               "this is a long message", "this is a long tale", "this is a long-winded text", "Hello world hereby"]
+CLASH_NAMES = ["Result", "Result", "favourite number", "favourite number 2", "favourite numbers", "x"]
+_POOL = {"words": None, "names": None}
 
 
 def new_uuid(rng):
     return str(_uuid.UUID(int=rng.getrandbits(128), version=4))
 
 
+def name_of(rng):
+    if _POOL["names"] is not None and rng.random() < 0.9:
+        return rng.choice(_POOL["names"])
+    return rng.choice(NAMES)
+
+
 def text(rng):
+    if _POOL["words"] is not None and rng.random() < 0.9:
+        return rng.choice(_POOL["words"])
     if rng.random() < 0.75:
         return rng.choice(WORDS)
     return "".join(rng.choice("ab .-_|;\\\"\n,é1Z!") for _ in range(rng.choice([1, 3, 8, 20])))
@@ -54,12 +70,12 @@ def gen_action(rng, groups, flows, kinds=None):
         else:
             a["attachments"] = [rng.choice(["image:u1", "audio:u2", "", "video:u3", "imagex"]) for _ in range(rng.choice([2, 3]))]
         if rng.random() < 0.15:
-            a["templating"] = {"uuid": new_uuid(rng), "template": {"uuid": TEMPLATE_UUID, "name": rng.choice(NAMES)},
+            a["templating"] = {"uuid": new_uuid(rng), "template": {"uuid": TEMPLATE_UUID, "name": name_of(rng)},
                                "variables": [text(rng) for _ in range(rng.choice([0, 1, 2]))]}
         if rng.random() < 0.1:
             a["all_urns"] = True
     elif kind == "set_contact_field":
-        nm = rng.choice(NAMES)
+        nm = name_of(rng)
         a["field"] = {"key": nm.lower().replace(" ", "_"), "name": nm}
         a["value"] = text(rng)
     elif kind.startswith("set_contact_"):
@@ -70,7 +86,7 @@ def gen_action(rng, groups, flows, kinds=None):
         if kind == "remove_contact_groups" and rng.random() < 0.3:
             a["all_groups"] = False
     elif kind == "set_run_result":
-        a["name"] = rng.choice(NAMES)
+        a["name"] = name_of(rng)
         a["value"] = text(rng)
         if rng.random() < 0.5:
             a["category"] = rng.choice(["", "Cat", "c;d"])
@@ -84,10 +100,10 @@ def gen_action(rng, groups, flows, kinds=None):
         a["method"] = rng.choice(["GET", "POST", "PUT"])
         a["body"] = text(rng)
         a["headers"] = {k: text(rng) for k in rng.sample(["Authorization", "Content-Type", "X;Y"], rng.choice([0, 1, 2]))}
-        a["result_name"] = rng.choice(NAMES)
+        a["result_name"] = name_of(rng)
     elif kind == "transfer_airtime":
         a["amounts"] = {k: rng.choice([500, 0.5, 1, 20]) for k in rng.sample(["RWF", "USD", "KES"], rng.choice([1, 2]))}
-        a["result_name"] = rng.choice(NAMES)
+        a["result_name"] = name_of(rng)
     return a
 
 
@@ -171,7 +187,7 @@ def gen_switch_router(rng, dests, groups, stats):
         router["wait"] = wait
     r = rng.random()
     if r < 0.6:
-        router["result_name"] = rng.choice(NAMES)
+        router["result_name"] = name_of(rng)
     elif r < 0.7:
         router["result_name"] = ""
     stats["switch_group" if by_group else ("switch_wait" if wait else "switch_plain")] = \
@@ -197,7 +213,7 @@ def gen_node(rng, nid, dests, groups, flows, stats):
         cats, exits = _cats_exits(rng, [f"Bucket {i + 1}" for i in range(k)], dests)
         node["router"] = {"type": "random", "categories": cats}
         if rng.random() < 0.4:
-            node["router"]["result_name"] = rng.choice(NAMES)
+            node["router"]["result_name"] = name_of(rng)
         node["exits"] = exits
         kind = "random"
     elif r < 0.89:
@@ -218,7 +234,7 @@ def gen_node(rng, nid, dests, groups, flows, stats):
                           "cases": [{"uuid": new_uuid(rng), "type": "has_only_text", "arguments": ["Success"], "category_uuid": cats[0]["uuid"]}],
                           "categories": cats, "default_category_uuid": cats[1]["uuid"]}
         if rng.random() < 0.5:
-            node["router"]["result_name"] = rng.choice(NAMES + [""])
+            node["router"]["result_name"] = (name_of(rng) if rng.random() < 0.9 else "")
         node["exits"] = exits
         kind = "webhook"
     else:
@@ -237,16 +253,27 @@ def gen_node(rng, nid, dests, groups, flows, stats):
 def gen_flow(rng, name, groups, flows, stats, n=None, shape=None):
     n = n or rng.choice([1, 2, 3, 4, 5, 6, 8, 10, 14])
     ids = [new_uuid(rng) for _ in range(n)]
-    shape = shape or rng.choice(["any", "any", "any", "forward", "chain"])
+    shape = shape or rng.choice(["any", "any", "any", "forward", "chain", "loops", "loops"])
     nodes = []
-    for i, nid in enumerate(ids):
-        if shape == "forward":
-            dests = ids[i + 1:] + [None]
-        elif shape == "chain":
-            dests = (ids[i + 1:i + 2] or [None]) * 3 + ids[i + 1:] + [None]
-        else:
-            dests = ids + [None, None]       # joins, cycles, self-loops, dead ends
-        nodes.append(gen_node(rng, nid, dests, groups, flows, stats))
+    if shape == "loops":
+        # row-id stress: a spine (so that most nodes are reached), most other exits go back to one
+        # of two or three ancestors (several back edges from one node / into one node, the same
+        # (source, target) more than once), and texts / result names that clash after mangling
+        _POOL["words"], _POOL["names"] = CLASH_WORDS, CLASH_NAMES
+        hubs = ids[:rng.choice([1, 2, 3])]
+    try:
+        for i, nid in enumerate(ids):
+            if shape == "forward":
+                dests = ids[i + 1:] + [None]
+            elif shape == "chain":
+                dests = (ids[i + 1:i + 2] or [None]) * 3 + ids[i + 1:] + [None]
+            elif shape == "loops":
+                dests = (ids[i + 1:i + 2] or [None]) * 2 + hubs * 2 + [nid] + ids[:i + 1] + [None]
+            else:
+                dests = ids + [None, None]       # joins, cycles, self-loops, dead ends
+            nodes.append(gen_node(rng, nid, dests, groups, flows, stats))
+    finally:
+        _POOL["words"], _POOL["names"] = None, None
     fl = {"name": name, "uuid": new_uuid(rng), "spec_version": "13.1.0", "language": "base", "type": "messaging",
           "nodes": nodes, "revision": 1, "expire_after_minutes": 10080, "metadata": {"revision": 1}, "localization": {}}
     r = rng.random()
@@ -280,7 +307,8 @@ def gen_container(rng, stats, nflows=None, **kw):
 # --------------------------------------------------------------------------- malformed stream
 MALFORMATIONS = ["dangling_destination", "basic_without_actions", "pass_through_action", "has_phone_no_args",
                  "has_group_one_arg", "duplicate_node_uuid", "airtime_in_basic_node", "remove_all_groups",
-                 "empty_flow", "no_args_under_child_status", "group_split_without_cases", "set_contact_channel"]
+                 "empty_flow", "no_args_under_child_status", "group_split_without_cases", "set_contact_channel",
+                 "has_group_one_arg_other_operand", "has_group_under_child_status"]
 
 
 def malform(rng, cont, which):
@@ -324,6 +352,21 @@ def malform(rng, cont, which):
         elif which == "set_contact_channel":
             a = {"uuid": new_uuid(rng), "type": "set_contact_channel", "channel": {"uuid": new_uuid(rng), "name": "ch"}}
             n["actions"].insert(rng.randrange(len(n["actions"]) + 1), a)
+        return c
+    if which == "has_group_one_arg_other_operand":
+        # a has_group case with the uuid only, outside a group split: there is no name to write
+        cands = [n for n in switches if n["router"]["cases"] and n["router"]["operand"] != "@contact.groups"]
+        if not cands:
+            return None
+        k = rng.choice(rng.choice(cands)["router"]["cases"])
+        k["type"], k["arguments"] = "has_group", [c["groups"][0]["uuid"]]
+        return c
+    if which == "has_group_under_child_status":
+        efs = [n for n in nodes if n["actions"] and n["actions"][0]["type"] == "enter_flow" and "router" in n]
+        if not efs:
+            return None
+        g = c["groups"][0]
+        rng.choice(efs)["router"]["cases"][0].update(type="has_group", arguments=[g["uuid"], g["name"]])
         return c
     if switches and which in ("has_phone_no_args", "has_group_one_arg", "group_split_without_cases"):
         n = rng.choice(switches)
